@@ -265,4 +265,18 @@ def r9_unset_is_empty(a, tier):
     return rep
 
 
-RULES = [r1_ebnf_vs_parser, r2_ebnf_vs_model, r3_config, r4_regeneration_literals, r5_regeneration_config, r6_optimizer, r7_generated_primitives, r8_text_determines_the_model, r9_unset_is_empty]
+def r10_regeneration_primitives(a, tier):
+    """regenerating the bootstrap parser reproduces its behaviour only if the generator emits, for every node class, the run-time primitive
+    the model uses (= C02.R2): the shipped parser is compared with the grammar by R1/R2, the GENERATOR by this rule"""
+    from . import c02
+    rep = c02.r2_primitives(a, tier)
+    reps = rep if isinstance(rep, list) else [rep]
+    for r in reps:
+        r.rule = 'C15.R10'
+        for f in r.findings:
+            f.rule = 'C15.R10'
+        r.text = '[= C02.R2] ' + r.text
+    return reps
+
+
+RULES = [r1_ebnf_vs_parser, r2_ebnf_vs_model, r3_config, r4_regeneration_literals, r5_regeneration_config, r6_optimizer, r7_generated_primitives, r8_text_determines_the_model, r9_unset_is_empty, r10_regeneration_primitives]
